@@ -97,6 +97,39 @@ func ruleUpdate(c *Ctx) {
 			}
 		}
 		c.Check("UPDATE", short(f)+":replaces-list-wholesale", p.Pos(f.Pos()), stored, "Update does not store the new list into the list field (wholesale replacement)")
+		// membership of the live list changes only by Update's wholesale replacement: every other method of the list type may
+		// reorder it (Move*) but never insert into or remove from it. (Elements handed out in snapshots can belong to a list
+		// that has been replaced since; Move* and Remove ignore foreign elements, an insertion does not — a revoked key's entry
+		// pushed into the new list authenticates again.)
+		nOps := 0
+		for _, g := range p.FnsIn("service") {
+			if g == f || g.Signature.Recv() == nil && g.Parent() == nil || p.IsTestSupport(g) {
+				continue
+			}
+			r := eng.Root(g)
+			if r.Signature.Recv() == nil || eng.TypeName(r.Signature.Recv().Type()) != T || r == f {
+				continue
+			}
+			for _, cl := range eng.Calls(g) {
+				call, ok := cl.(*ssa.Call)
+				if !ok {
+					continue
+				}
+				cf := call.Call.StaticCallee()
+				if cf == nil || cf.Pkg == nil || cf.Pkg.Pkg.Path() != "container/list" || len(call.Call.Args) == 0 {
+					continue
+				}
+				if !p.AnyFrom(call.Call.Args[0], eng.Plain, func(v ssa.Value) bool { t, _, _, ok := eng.FieldLoad(v); return ok && t == T }) {
+					continue
+				}
+				nOps++
+				switch cf.Name() {
+				case "Init", "PushBack", "PushFront", "PushBackList", "PushFrontList", "Remove", "InsertBefore", "InsertAfter":
+					c.CheckAt("UPDATE", short(g)+":membership-changed-only-by-Update", call, false, "a method other than Update changes the membership of the live key list ("+cf.Name()+"): an element of a list that was replaced in the meantime (held by an in-flight snapshot) is spliced into the new list, so a removed key authenticates again")
+				}
+			}
+		}
+		c.Floor("UPDATE", "list operations in the other methods of "+T, nOps, 2)
 	}
 	c.Floor("UPDATE", "CipherList.Update implementations", n, 1)
 }
